@@ -687,6 +687,19 @@ func sqlChecks(c Case, t geom.T, exp *model.G) error {
 			return fmt.Errorf("wkb.Geom.Value() = %v, %v", av, err)
 		}
 	}
+	if sqlMode == "ewkb" {
+		// SQL NULL in between (whatever the wrapper answers to it, it must not panic and a
+		// later Scan of the encoding must still give the geometry)
+		if msg := run.Safe(func() error { _ = match.Scan(nil); _, _ = match.Value(); return nil }); msg != nil {
+			return fmt.Errorf("Scan(nil) / Value(): %v", msg)
+		}
+		if err := match.Scan(append([]byte{}, ndr...)); err != nil {
+			return fmt.Errorf("Scan after Scan(nil): %v", err)
+		}
+		if err := sameModel("Scan after Scan(nil)", expSQL, get(), true); err != nil {
+			return err
+		}
+	}
 	// the value handed to database/sql must stay valid while later values are
 	// produced (a driver may hold several parameters of one statement at once)
 	otherLS := geom.NewLineString(geom.XY).MustSetCoords([]geom.Coord{{-7, 9}, {11, -13}, {0.5, 2.25}})
